@@ -201,6 +201,12 @@ def random_case(rng):
     names = list(INITIAL[fl])
     L = rng.choice([1, 2, 3, 5, 8, 12, 20, 30])
     ops = []
+    if rng.random() < 0.8:      # start from a few well-formed variables of assorted dtypes, declared out of order
+        for name in rng.sample(['B', 'A', 'a', 'C'], k=rng.choice([1, 2, 2, 3])):
+            kind = rng.choice(KINDS)
+            v = rand_scalar(rng, kind) if rng.random() < 0.5 else [rng.choice(POOL[kind]) for _ in range(n)]
+            ops.append({'op': 'addVariable', 'name': name, 'v': enc_operand(v), 'dtype': rng.choice([None, None, kind])})
+            names.append(name)
     for _ in range(L):
         it = rand_item(rng, names + (['status', 'iterations'] if fl != 'container' and rng.random() < 0.1 else []), n,
                        labels)
@@ -399,7 +405,10 @@ class Oracle:
         attrs = list(obj._attributes)
         if self.prev_strict:
             name = item.get('name')
-            allowed = {name} if op == 'addAttribute' else {'strict'} if op == 'setStrict' else set()
+            # `strict` / `values` are class properties: their first use is recorded in `_attributes` (bookkeeping, not a
+            # new instance attribute — `__dict__` is checked separately below)
+            allowed = ({name} if op == 'addAttribute' else {'strict'} if op == 'setStrict'
+                       else {'values'} if op == 'setValues' else set())
             new = [a for a in attrs if a not in self.prev_attrs and a not in allowed]
             newkeys = {x for x in set(obj.__dict__) - self.prev_keys
                        if not (op == 'addVariable' and x == '_' + name) and not (op == 'addAttribute' and x == name)}
@@ -414,7 +423,8 @@ class Oracle:
                         self.violate('strict-no-suggestion', f'closest variable to {name!r} is {alts[0]!r}; message: {exc}', k)
             if op == 'setAttr' and name in before and scalar_kind(item['v']) in NUMERIC and out != 'ok':
                 self.violate('strict-blocks-existing', f'strict=True: update of existing variable {name} raised {out}', k)
-            if (op == 'addVariable' and name not in before and scalar_kind(item['v']) in NUMERIC
+            if (op == 'addVariable' and name not in before and name not in self.prev_attrs
+                    and scalar_kind(item['v']) in NUMERIC
                     and item.get('dtype') in (None, 'f', 'i', 'b') and out != 'ok'):
                 self.violate('strict-blocks-add-variable', f'strict=True: add_variable({name!r}, scalar) raised {out}', k)
             if op == 'setValues' and scalar_kind(item['v']) in NUMERIC and out in ('AttributeError', 'NotImplementedError'):
@@ -452,7 +462,7 @@ def run(ctx, rep):
     quick = ctx.tier == 'quick'
     core = list(core_cases(2 if quick else 2))
     check_cases(ctx, rep, core, 'core')
-    n_random = (2500 if quick else 100000) * ctx.scale
+    n_random = (7500 if quick else 100000) * ctx.scale
     rng = ctx.sub_rng('random')
     for chunk in range(0, n_random, 2500):
         check_cases(ctx, rep, [random_case(rng) for _ in range(min(2500, n_random - chunk))], 'random')
